@@ -330,7 +330,7 @@ func (fv *FuncVer) loopFrame(st *State, f *Frame, key, phase string, hks []strin
 		return
 	}
 	as, ok := fv.block.Flags["assigns"]
-	if !ok {
+	if !ok || fv.block.Flags["frame"] == "assumed" {
 		return
 	}
 	env := fv.frameEnv(st, f)
@@ -690,6 +690,43 @@ func (fv *FuncVer) modCall(st *State, f *Frame, ci ssa.CallInstruction, ms *modS
 			return
 		}
 		if blk != nil {
+			// `assigns pointee:<param>`: a store through the corresponding argument
+			if as, ok := blk.Flags["assigns"]; ok && strings.Contains(as, "pointee:") {
+				var rest []string
+				okAll := true
+				for _, part := range strings.Split(as, ",") {
+					part = strings.TrimSpace(part)
+					if !strings.HasPrefix(part, "pointee:") {
+						rest = append(rest, part)
+						continue
+					}
+					name := strings.TrimPrefix(part, "pointee:")
+					found := false
+					params := cv.Params
+					for i, p := range params {
+						if p.Name() == name && i < len(cc.Args) {
+							fv.modThrough(st, f, cc.Args[i], ms, bindings)
+							found = true
+						}
+					}
+					if !found {
+						okAll = false
+					}
+				}
+				if okAll {
+					nb := *blk
+					nb.Flags = map[string]string{}
+					for k, v := range blk.Flags {
+						nb.Flags[k] = v
+					}
+					nb.Flags["assigns"] = strings.Join(rest, ", ")
+					if len(rest) == 0 {
+						nb.Flags["assigns"] = "nothing"
+					}
+					fv.modBlock(&nb, ms)
+					return
+				}
+			}
 			fv.modBlock(blk, ms)
 			return
 		}
@@ -732,11 +769,42 @@ func (fv *FuncVer) modCall(st *State, f *Frame, ci ssa.CallInstruction, ms *modS
 			}
 		}
 	}
+	// ... or from a captured variable of an enclosing function
+	if u, ok := cc.Value.(*ssa.UnOp); ok {
+		if fvar, ok := u.X.(*ssa.FreeVar); ok && fvar.Parent() != nil {
+			for i, v := range fvar.Parent().FreeVars {
+				if v != fvar || i >= len(bindings) {
+					continue
+				}
+				if l, ok := bindings[i].(*Loc); ok {
+					if cl, ok := fv.loadVal(st, l).(*Closure); ok {
+						if visited[cl.Fn] {
+							return
+						}
+						visited[cl.Fn] = true
+						nf := &Frame{id: -1, fn: cl.Fn, regs: map[ssa.Value]Val{}, bindings: cl.Bindings}
+						fv.collectMods(st, nf, cl.Fn.Blocks, ms, visited, cl.Bindings)
+						return
+					}
+				}
+			}
+		}
+	}
 	ms.callbacks = true
 	if fv.block != nil && fv.block.Flags["callbacks"] == "pure" {
 		return
 	}
 	ms.all = true
+}
+
+// loadVal reads a location without failing on locations that hold no value yet.
+func (fv *FuncVer) loadVal(st *State, l *Loc) (v Val) {
+	defer func() {
+		if r := recover(); r != nil {
+			v = nil
+		}
+	}()
+	return fv.load(st, l)
 }
 
 func (fv *FuncVer) modInlined(st *State, f *Frame, fn *ssa.Function, mc *ssa.MakeClosure, cc *ssa.CallCommon, ms *modSet, visited map[*ssa.Function]bool) {
